@@ -23,6 +23,7 @@ import NodisVerif.Proofs.FloatDecNear
 import NodisVerif.Proofs.GeoAdd
 import NodisVerif.Proofs.GeoRange
 import NodisVerif.Proofs.F64NotNaN
+import NodisVerif.Proofs.C04ZAddPairs
 /-
   C04 — sorted sets stay ordered by (score, member); rank, range and score agree.
 
@@ -1135,5 +1136,95 @@ theorem encode_limit_finding :
   decide +kernel
 
 end geo
+
+/-! ## 9. ZADD, the command (after the repair of A-48 and of the non-atomic multi-member ZADD)
+
+  `Api.zaddPairs` mirrors the unexported `(*Nodis).zAddPairs` the ZADD handler now calls: all the pairs of one
+  command in ONE transaction, decided with Redis' option rules. `Spec.ZAdd` (Spec/ZAdd.lean) is the reference: the
+  option rules of the command reference on a plain association list member ↦ score. -/
+section zaddPairs
+open NodisVerif.Api
+
+/-- the loop of `zAddPairs` keeps the invariant: every option set, every pair list without a NaN score (the handler
+    rejects NaN before anything is written), members repeated in one command included -/
+theorem zaddPairs_loop_wf (nx xx gt lt : Bool) (z : ZSet) (h : z.WF) (pairs : List (Bytes × F64))
+    (hn : ∀ p ∈ pairs, F64.isNaN p.2 = false) :
+    (pairs.foldl (zaddStep nx xx gt lt) { z := z, added := 0, changed := 0, ops := [] }).z.WF :=
+  (inv_zaddFold nx xx gt lt pairs _ (Inv.ofWF h) hn).toWF
+
+/-- ZADD keeps the sorted set well formed, at the level of the store: whatever sorted set `key` holds when the
+    transaction has taken the key (for a missing key without XX: the empty one), the sorted set it holds after the
+    command is well formed, and no NaN is stored -/
+theorem zaddPairs_wf (s : MState) (now : Int) (key : Bytes) (nx xx gt lt ch : Bool) (pairs : List (Bytes × F64))
+    (hne : pairs ≠ []) (hn : ∀ p ∈ pairs, F64.isNaN p.2 = false) (z : ZSet) (hwf : z.WF)
+    (hz : asZSet (Store.writeKey s now key (if xx then none else some (.zset DsZSet.empty))).1 key = some z)
+    (hok : xx = true → (Store.writeKey s now key none).2 = true) :
+    ∃ z', asZSet (zaddPairs s now key nx xx gt lt ch pairs).1 key = some z' ∧ z'.WF ∧
+      ∀ m sc, zScore z' m = some sc → F64.isNaN sc = false := by
+  refine ⟨_, (zaddPairs_some s now key nx xx gt lt ch pairs hne z hz hok).2, zaddPairs_loop_wf nx xx gt lt z hwf pairs hn, ?_⟩
+  intro m sc hsc
+  exact (zaddPairs_loop_wf nx xx gt lt z hwf pairs hn).noNaN m sc (Proofs.AListLemmas2.mem_of_get? _ _ _ hsc)
+
+/-- THE OPTION RULES ARE REDIS': for every store, key, option set and non-empty pair list, the reply is the
+    reference's (`added`, with CH `added + changed`) and the member ↦ score map the key holds afterwards is the
+    reference's map - every member looked up in both gives the same score or the same absence.
+    (`hz` / `hok` say that the key holds a sorted set when the transaction has taken it - for XX on a missing key
+    see `zaddPairs_xx_missing`, for an empty pair list `zaddPairs_nil`; a key of another type panics.) -/
+theorem zaddPairs_spec (s : MState) (now : Int) (key : Bytes) (nx xx gt lt ch : Bool) (pairs : List (Bytes × F64))
+    (hne : pairs ≠ []) (z : ZSet)
+    (hz : asZSet (Store.writeKey s now key (if xx then none else some (.zset DsZSet.empty))).1 key = some z)
+    (hok : xx = true → (Store.writeKey s now key none).2 = true) :
+    (zaddPairs s now key nx xx gt lt ch pairs).2 =
+      .int (Spec.ZAdd.reply ch (Spec.ZAdd.zadd nx xx gt lt z.dict pairs)) ∧
+    ∃ z', asZSet (zaddPairs s now key nx xx gt lt ch pairs).1 key = some z' ∧
+      ∀ m, zScore z' m = Spec.ZAdd.find (Spec.ZAdd.zadd nx xx gt lt z.dict pairs).map m := by
+  obtain ⟨h1, h2⟩ := zaddPairs_some s now key nx xx gt lt ch pairs hne z hz hok
+  have hr := zaddFold_spec nx xx gt lt z pairs
+  refine ⟨?_, _, h2, hr.map⟩
+  rw [h1]
+  unfold Spec.ZAdd.reply
+  rw [hr.added, hr.changed]
+
+/-- XX on a key that does not exist: reply 0, and the store is what taking the key left - no key is created -/
+theorem zaddPairs_xx_missing (s : MState) (now : Int) (key : Bytes) (nx gt lt ch : Bool) (pairs : List (Bytes × F64))
+    (hne : pairs ≠ []) (hmiss : (Store.writeKey s now key none).2 = false) :
+    zaddPairs s now key nx true gt lt ch pairs = ((Store.writeKey s now key none).1, .int 0) := by
+  unfold zaddPairs
+  have hne' : pairs.isEmpty = false := by cases pairs <;> simp_all
+  simp [hne', hmiss]
+
+/-- no pair: nothing happens (the transaction is not even begun, so no key can be created and left empty) -/
+theorem zaddPairs_nil (s : MState) (now : Int) (key : Bytes) (nx xx gt lt ch : Bool) :
+    zaddPairs s now key nx xx gt lt ch [] = (s, .int 0) := rfl
+
+/-- a ZADD without XX on a key that does not exist never leaves an empty key: the first pair is written -/
+theorem zaddPairs_created_not_empty (nx gt lt : Bool) (pairs : List (Bytes × F64)) (hne : pairs ≠ []) :
+    (pairs.foldl (zaddStep nx false gt lt) { z := DsZSet.empty, added := 0, changed := 0, ops := [] }).ops ≠ [] :=
+  Proofs.ZAddPairs.zaddFold_empty_ops_ne nx gt lt pairs hne _ rfl
+
+/-- the reference on the witness of A-48 (`abc` = {a ↦ 1, b ↦ 2, c ↦ 3}): `GT CH 5 a 1 b 9 new` updates a, leaves
+    b (1 is not greater than 2), ADDS the new member, replies 2; `NX 7 a 8 x 9 x` adds x once (the second pair for
+    x sees it), replies 1; `XX 4 zz` does nothing -/
+example :
+    let r := Spec.ZAdd.zadd false false true false abc.dict [([97], F64.ofNat 5), ([98], F64.ofNat 1), ([110], F64.ofNat 9)]
+    Spec.ZAdd.reply true r = 2 ∧ Spec.ZAdd.reply false r = 1 ∧
+    Spec.ZAdd.find r.map [97] = some (F64.ofNat 5) ∧ Spec.ZAdd.find r.map [98] = some (F64.ofNat 2) ∧
+    Spec.ZAdd.find r.map [110] = some (F64.ofNat 9) := by decide +kernel
+
+example :
+    let r := Spec.ZAdd.zadd true false false false abc.dict [([97], F64.ofNat 7), ([120], F64.ofNat 8), ([120], F64.ofNat 9)]
+    Spec.ZAdd.reply false r = 1 ∧ Spec.ZAdd.find r.map [97] = some (F64.ofNat 1) ∧
+    Spec.ZAdd.find r.map [120] = some (F64.ofNat 8) := by decide +kernel
+
+/-- the hypotheses of `zaddPairs_spec` / `zaddPairs_wf` are satisfiable: a Pebble store in which key "k" holds
+    `abc`, options GT CH, three pairs -/
+example :
+    let s : MState := (zaddPairs { pebble := true } 0 [107] false false false false false
+      [([97], F64.ofNat 1), ([98], F64.ofNat 2), ([99], F64.ofNat 3)]).1
+    asZSet (Store.writeKey (Api.commit s) 1 [107] (some (.zset DsZSet.empty))).1 [107] = some abc ∧
+    Handler.intOf (zaddPairs (Api.commit s) 1 [107] false false true false true
+      [([97], F64.ofNat 5), ([98], F64.ofNat 1), ([110], F64.ofNat 9)]).2 = 2 := by decide +kernel
+
+end zaddPairs
 
 end NodisVerif.C04
